@@ -81,8 +81,9 @@ type BlockPipeline struct {
 	started         atomic.Bool
 	stopped         atomic.Bool
 	wg              sync.WaitGroup
-	mu              sync.Mutex   // protects Start/Stop
-	submitMu        sync.RWMutex // protects Submit against concurrent Stop
+	mu              sync.Mutex    // protects Start/Stop
+	submitMu        sync.RWMutex  // protects Submit against concurrent Stop
+	sequenceSem     chan struct{} // serialises sequence numbering with the send to submitChan
 }
 
 // NewBlockPipeline creates a new BlockPipeline using functional options.
@@ -100,8 +101,9 @@ func NewBlockPipeline(opts ...PipelineOption) *BlockPipeline {
 		opt(&config)
 	}
 	return &BlockPipeline{
-		config:  config,
-		metrics: NewPipelineMetrics(config.MetricsWindowSize),
+		config:      config,
+		metrics:     NewPipelineMetrics(config.MetricsWindowSize),
+		sequenceSem: make(chan struct{}, 1),
 	}
 }
 
@@ -225,18 +227,31 @@ func (p *BlockPipeline) Submit(ctx context.Context, blockType uint, rawCbor []by
 		return ErrPipelineStopped
 	}
 
-	// Allocate sequence number only once, then send.
-	// We use a single blocking select to avoid sequence gaps that would occur
-	// if we allocated in a non-blocking attempt that failed.
-	item := NewBlockItem(blockType, rawCbor, tip, p.sequenceCounter.Add(1)-1)
+	// The sequence number is only consumed once the item has actually been
+	// handed to the pipeline. If the send is abandoned (e.g. the caller's
+	// context expires while the pipeline applies backpressure) the number must
+	// not be skipped, because the apply stage waits for every sequence number
+	// in order. sequenceSem keeps numbering and channel order consistent
+	// between concurrent submitters; it is a one-slot semaphore rather than a
+	// mutex so that waiting for it still honours both contexts.
+	select {
+	case p.sequenceSem <- struct{}{}:
+		defer func() { <-p.sequenceSem }()
+	case <-ctx.Done():
+		return ctx.Err()
+	case <-p.ctx.Done():
+		return ErrPipelineStopped
+	}
+
+	item := NewBlockItem(blockType, rawCbor, tip, p.sequenceCounter.Load())
 
 	select {
 	case p.submitChan <- item:
+		p.sequenceCounter.Add(1)
 		p.metrics.RecordSubmit()
 		return nil
 	case <-ctx.Done():
-		// Context cancelled while waiting - sequence gap is acceptable
-		// because this typically means shutdown.
+		// Context cancelled while waiting: the sequence number was not consumed
 		return ctx.Err()
 	case <-p.ctx.Done():
 		return ErrPipelineStopped
